@@ -8,7 +8,21 @@ from .rules_guard import write_of
 
 def _is_var(n, did):
     n = n.strip()
-    return n.kind == "DeclRefExpr" and n.d["d"] == did
+    if n.kind == "DeclRefExpr" and n.d["d"] == did:
+        return True
+    # a reference parameter of a virtually inlined helper (`const char *&s`) *is* the variable it is bound to
+    if n.kind == "DeclRefExpr" and n.get("local") and n.d["d"] in n.fn.bind_map():
+        t = str((n.get("t") or ""))
+        m = std_unwrap(n)
+        return m.id != n.id and m.kind == "DeclRefExpr" and m.d["d"] == did and _is_ref_param(n)
+    return False
+
+
+def _is_ref_param(n):
+    for x in n.fn.all_nodes():
+        if x.kind == "ParamBind" and x.d.get("d") == n.d["d"]:
+            return str(x.d.get("t", "")).rstrip().endswith("&")
+    return False
 
 
 def _char_at(n, did):
@@ -213,8 +227,15 @@ def check_loop_progress(ctx, rule, fn, progress, default_vars=()):
     for (u, h) in backs:
         hb = fn.blocks[h]
         vars_ = set()
-        if hb.cond is not None:
-            for x in fn.node(hb.cond).walk():
+        # the controlling condition: at the header (while/for), or at the latch for a do/while loop
+        ctl = hb
+        lb_, hops_ = fn.blocks[u], 0
+        while lb_.cond is None and not lb_.nodes() and len([p_ for p_ in lb_.preds if p_ in rb]) == 1 and hops_ < 3:
+            lb_, hops_ = fn.blocks[[p_ for p_ in lb_.preds if p_ in rb][0]], hops_ + 1     # clang's empty loop-back block
+        if lb_.id != h and lb_.cond is not None and len(lb_.live_succs()) == 2:
+            ctl = lb_
+        if ctl.cond is not None:
+            for x in fn.node(ctl.cond).walk():
                 if x.kind == "DeclRefExpr" and x.get("dk") in ("Var", "ParmVar") and x.get("local"):
                     y = std_unwrap(x)        # a reference parameter of a folded-in helper is its argument
                     if y.kind == "DeclRefExpr":
@@ -597,26 +618,43 @@ def check_fmt_spec(ctx, unit):
     if not ps:
         raise AnalysisBroken("anchor vanished: parse_fmt_spec")
     for f in ps[:1]:
-        letters = set()
-        inner = None
+        # the scan character: a `char` local initialised from an element of the spec view; the accepted conversion letters
+        # are the values of that character under which a store to <options>.conversion is reached -- by a path-sensitive
+        # enumeration over the CFG (a switch, an if-chain or a dispatch helper look the same there)
+        inits_ = RA.local_inits(f)
+        chars = [canon(i.strip()) for d, i in inits_.items() if (i.get("t") or i.strip().get("t") or "") in ("char", "const char")
+                 and any(x.kind in ("CXXOperatorCallExpr", "ArraySubscriptExpr") for x in i.walk())]
+        cand = set()
+        for b_ in f.blocks.values():
+            if b_.termkind == "SwitchStmt" and b_.cond is not None:
+                for _s, v_, _all in flow.switch_edges(f, b_.id):
+                    if v_ is not None:
+                        cand.add(v_)
         for n in f.all_nodes():
-            if n.kind == "SwitchStmt":
-                c = n.child("cond")
-                if c is not None and "spec" in canon(c):
-                    inner = n
-        if inner is None:
-            raise AnalysisBroken("anchor vanished: conversion switch in parse_fmt_spec")
-        for x in inner.walk():
-            if x.kind == "CaseStmt" and x.get("casev") is not None:
-                letters.add(chr(int(x.get("casev"))))
+            if n.kind == "BinaryOperator" and n.op in ("==", "!="):
+                for x in n.children:
+                    c_ = x.strip().cv()
+                    if c_ is not None and x.strip().kind in ("CharacterLiteral", "IntegerLiteral", "ImplicitCastExpr") and 32 <= c_ < 127:
+                        cand.add(c_)
+        if not chars or not cand:
+            raise AnalysisBroken("anchor vanished: scan character / conversion dispatch in parse_fmt_spec")
+        OTHER = -99999
+        letters, rej_other, acc_other = set(), [False], [False]
+
+        def observe(n, st):
+            w = write_of(n)
+            v = st[chars[0]]
+            if w and w[0] and w[0][-1] == "conversion":
+                if v == OTHER:
+                    acc_other[0] = True
+                else:
+                    letters.add(chr(v))
+            if n.kind == "ReturnStmt" and n.child("val") is not None and n.child("val").strip().cv() == 0 and v == OTHER:
+                rej_other[0] = True
+        flow.value_states(f, {chars[0]: cand}, observe, other=OTHER)
         want = set("bcodixX")
-        defaults = [x for x in inner.walk() if x.kind == "DefaultStmt"]
-        rej = False
-        for d in defaults:
-            for y in d.walk():
-                if y.kind == "ReturnStmt" and y.child("val") is not None and y.child("val").strip().cv() == 0:
-                    rej = True
-        ctx.inst("T.fmt-conversions", "frg::detail_::fmt_impl::parse_fmt_spec: letters", letters == want and rej, inner.loc,
+        rej = rej_other[0] and not acc_other[0]
+        ctx.inst("T.fmt-conversions", "frg::detail_::fmt_impl::parse_fmt_spec: letters", letters == want and rej, f.loc,
                  "accepted letters %s, expected %s; other letters rejected: %s" % ("".join(sorted(letters)), "".join(sorted(want)), rej), f)
     fo = [f for f in unit.functions if f.name == "format_object" and "fmt_impl" in (f.owner_cls or "")]
     if not fo:
@@ -655,13 +693,17 @@ def check_fmt_spec(ctx, unit):
                 recorded.setdefault(tgt, []).append(None)
         recorded = {k: v for k, v in recorded.items() if all(x is not None for x in v)}
 
-        def leaf(x):
+        def leaf(x, depth=0):
             x = x.strip()
             v = flow._var_of(x)
             if v is not None:
                 return Poly.sym("v%d" % v)
             if x.is_call() and x.callee and x.callee["n"] == "size" and x.callee.get("cls") == "frg::basic_string_view":
                 return Poly.sym("size")
+            xs = std_unwrap(x)
+            if xs.id != x.id and depth < 6:
+                # a by-value parameter of a virtually inlined helper / lambda stands for its argument expression
+                return to_poly(xs, lambda y: leaf(y, depth + 1))
             return None
         problems, starts = [], set()
         for e in echo:
@@ -946,7 +988,14 @@ def check_pop_arg(ctx, unit):
         raise AnalysisBroken("anchor vanished: pop_arg")
     for f in fs:
         ta = f.get("targs", "").strip("<>")
-        uses = [n for n in f.events() if n.kind == "MemberExpr" and n.m == "arg_pos"]
+        # the requested position: opts->arg_pos, or a once-initialised local that holds it
+        inits_ = RA.local_inits(f)
+        snaps = {d for d, i in inits_.items() if std_unwrap(i).kind == "MemberExpr" and std_unwrap(i).m == "arg_pos" and not RA._reassigned(f, d)}
+        snap_inits = {std_unwrap(inits_[d]).id for d in snaps}
+
+        def is_pos(x):
+            return (x.kind == "MemberExpr" and x.m == "arg_pos") or (x.kind == "DeclRefExpr" and x.get("local") and x.d["d"] in snaps)
+        uses = [n for n in f.events() if is_pos(n) and n.id not in snap_inits]
         bad = []
         nidx = 0
         for n in uses:
@@ -969,11 +1018,11 @@ def check_pop_arg(ctx, unit):
                 c, t = cond.strip(), truth
                 while c.kind == "UnaryOperator" and c.op == "!":
                     c, t = c.children[0].strip(), not t
-                if c.kind == "BinaryOperator" and c.op in ("==", "!=") and any(x.kind == "MemberExpr" and x.m == "arg_pos" for x in c.walk()):
-                    k = [x.strip().cv() for x in c.children]
+                if c.kind == "BinaryOperator" and c.op in ("==", "!=") and any(is_pos(x) for x in c.walk()):
+                    k = [x.strip().cv() if not is_pos(x.strip()) else None for x in c.children]
                     if -1 in k and ((c.op == "==" and not t) or (c.op == "!=" and t)):
                         ok = True
-                if c.kind == "BinaryOperator" and c.op in (">=", ">") and t and any(x.kind == "MemberExpr" and x.m == "arg_pos" for x in c.children[0].walk()):
+                if c.kind == "BinaryOperator" and c.op in (">=", ">") and t and any(is_pos(x) for x in c.children[0].walk()):
                     ok = True
             if not ok:
                 bad.append(n.loc)
@@ -996,7 +1045,7 @@ def check_pop_arg(ctx, unit):
                     c = cond.strip()
                     if c.kind == "BinaryOperator" and c.op in ("<", "<=", ">", ">=") and \
                             any(x.kind == "MemberExpr" and x.m == "num_args" for x in c.walk()) and \
-                            any(x.kind == "MemberExpr" and x.m == "arg_pos" for x in c.walk()):
+                            any(is_pos(x) for x in c.walk()):
                         ok = True
                 if not ok:
                     bad.append(n.loc)
